@@ -39,6 +39,7 @@ def main():
     tier = args[args.index("--tier") + 1] if "--tier" in args else "quick"
     meta = json.load(open(os.path.join(sd, "meta.json")))
     props = args[args.index("--props") + 1].split(",") if "--props" in args else [meta["property"]]
+    meta.setdefault("property", ",".join(props))
     name = os.path.basename(sd)
     wt = "/tmp/mut/" + name
     env = dict(os.environ, CARGO_NET_OFFLINE="true", CARGO_TARGET_DIR="/tmp/mut/target-" + name)
